@@ -354,14 +354,17 @@ def extractConstantTerm (e : Expr) : Except Err Rat :=
 
 /-! ### `extract_all_linear_coefficients` and its O(1) shortcuts -/
 
-/-- the test shared by all shortcuts:
-    `vec_n == n` and then `var_index.get(vector._variables[0].name, -1) == 0`.
-    `none` = the first test failed (fall through); `_variables[0]` of an empty vector raises. -/
+/-- `all(var_index.get(v.name, -1) == i for i, v in enumerate(variables))`, from position `i` on -/
+def alignedFrom (V : List String) : List Var → Nat → Bool
+  | [], _ => true
+  | v :: t, i => (varIndex V v.name == some i) && alignedFrom V t (i + 1)
+
+/-- the test shared by all shortcuts, `_vector_is_aligned(vector, var_index, n)`:
+    `len(vector._variables) == n` and every element sits at its own position of the LP's variable list
+    (before the repair F35 only the first position was tested).
+    `none` = the length test failed (fall through).  The `Except` is kept for the callers; it never raises. -/
 def coversAll (V : List String) (vv : VVar) : Except Err (Option Bool) :=
-  if vv.vars.length == V.length then
-    match vv.vars with
-    | [] => .error .index
-    | v :: _ => .ok (some (varIndex V v.name == some 0))
+  if vv.vars.length == V.length then .ok (some (alignedFrom V vv.vars 0))
   else .ok none
 
 /-- `_try_extract_fast_binop` -/
